@@ -29,13 +29,13 @@ const (
 )
 
 type thread struct {
-	id     int
-	name   string
-	co     *coro
-	status int
-	ready  func() bool
-	what   string
-	isMain bool
+	id      int
+	name    string
+	co      *coro
+	status  int
+	ready   func() bool
+	what    string
+	isMain  bool
 	lastRun int
 	// rendezvous bookkeeping while blocked in a channel operation
 	waitRecv  []recvWait
@@ -252,8 +252,8 @@ func (e *Exec) blockUntil(ready func() bool, what string) {
 // ----- channel operations with rendezvous semantics (explore mode) -----
 
 type sendOffer struct {
-	ch   *ChanObj
-	val  Value
+	ch      *ChanObj
+	val     Value
 	caseIdx int
 }
 
